@@ -876,8 +876,12 @@ class Session:
             return
         self.closed = True
         try:
-            self.obs.stop()
-            self.obs.join(10)
+            # a library that has dead-locked must not take the harness with it: the verdict of the case was reached
+            # before this point (stop() blocking forever is C06's subject)
+            t = threading.Thread(target=lambda: (self.obs.stop(), self.obs.join(10)), daemon=True)
+            t.start()
+            t.join(20)
+            self.stop_blocked = t.is_alive()
         finally:
             os.chdir(self.oldcwd)
             _bufsize[0] = None
